@@ -73,7 +73,7 @@ def truth(v):
 
 _QUALS = ('const ', 'volatile ', 'restrict ', '__restrict ')
 _INT_TYPES = {
-    'char': (8, True), 'signed char': (8, True), 'unsigned char': (8, False), '_Bool': (8, False),
+    'char': (8, True), 'signed char': (8, True), 'unsigned char': (8, False), '_Bool': (8, False), 'bool': (8, False),
     'short': (16, True), 'unsigned short': (16, False), 'int': (32, True), 'unsigned int': (32, False), 'unsigned': (32, False),
     'long': (64, True), 'unsigned long': (64, False), 'long long': (64, True), 'unsigned long long': (64, False),
     'int8_t': (8, True), 'uint8_t': (8, False), 'int16_t': (16, True), 'uint16_t': (16, False),
@@ -207,9 +207,12 @@ class Types:
     def wrap(self, v, t):
         if not isinstance(v, int):
             return v
-        it = _INT_TYPES.get(self.clean(t))
+        c = self.clean(t)
+        it = _INT_TYPES.get(c)
         if it is None:
             return v
+        if c in ('_Bool', 'bool'):
+            return int(v != 0)
         bits, signed = it
         v &= (1 << bits) - 1
         if signed and v >= 1 << (bits - 1):
@@ -268,6 +271,7 @@ class Machine:
         self._fn = {}
         self.nobj = 0
         self._ut = {}
+        self._it = {}
         self.journal = None       # undo log of memory effects: [(obj, off, old value | MISSING)] / ('freed', obj) / ('zr', obj, old)
 
     # -- memory ---------------------------------------------------------------
@@ -361,6 +365,77 @@ class Machine:
         if k == 'null':
             return 'void *'
         return 'int'
+
+    def int_type(self, e):
+        """(bits, signed) of the C type an integer expression has after the integer promotions / usual arithmetic
+        conversions, derived from the typed expression tree; None when some operand type is not a known integer type
+        (the extractor drops the implicit integral conversions, so they are re-derived here)"""
+        c = self._it.get(id(e), MISSING)
+        if c is MISSING:
+            try:
+                c = self._int_type(e)
+            except AnalysisBroken:
+                c = None
+            self._it[id(e)] = c
+        return c
+
+    def _int_type(self, e):
+        k = e.get('k')
+        if k == 'int':
+            v = e['v']
+            return (32, True) if -(1 << 31) <= v < (1 << 31) else (64, True)
+        if k in ('load', 'paren', 'stmtexpr'):
+            return self.int_type(e['e']) if 'e' in e else None
+        if k in ('var', 'member', 'index', 'deref', 'call'):
+            if k == 'var' and e.get('vk') == 'enum':
+                return (32, True)
+            return _INT_TYPES.get(self.ty.clean(e.get('type') or ''))
+        if k == 'cast':
+            return _INT_TYPES.get(self.ty.clean(e.get('to') or ''))
+        if k in ('incdec',):
+            return self.int_type(e['e'])
+        if k == 'assign':
+            return self.int_type(e['l'])
+        if k == 'sizeof':
+            return (64, False)
+
+        def promote(t):
+            return None if t is None else ((32, True) if t[0] < 32 else t)
+
+        def usual(a, b):
+            a, b = promote(a), promote(b)
+            if a is None or b is None:
+                return None
+            if a[1] == b[1]:
+                return max(a, b)
+            u, s_ = (a, b) if not a[1] else (b, a)
+            return u if u[0] >= s_[0] else s_
+        if k == 'un':
+            if e['op'] == '!':
+                return (32, True)
+            return promote(self.int_type(e['e']))
+        if k == 'bin':
+            op = e['op']
+            if op in ('==', '!=', '<', '>', '<=', '>=', '&&', '||'):
+                return (32, True)
+            if op == ',':
+                return self.int_type(e['r'])
+            if op in ('<<', '>>'):
+                return promote(self.int_type(e['l']))
+            if op in ('+', '-', '*', '/', '%', '&', '|', '^'):
+                return usual(self.int_type(e['l']), self.int_type(e['r']))
+            return None
+        if k == 'cond':
+            return usual(self.int_type(e['a']), self.int_type(e['b']))
+        return None
+
+    @staticmethod
+    def wrap_bits(v, it):
+        bits, signed = it
+        v &= (1 << bits) - 1
+        if signed and v >= 1 << (bits - 1):
+            v -= 1 << bits
+        return v
 
     def unsigned_of(self, e):
         """the unsigned type (>= int) a binary operation is carried out in, or None"""
@@ -512,7 +587,8 @@ class Machine:
             if not isinstance(v, int):
                 raise Fault('memory', 'unary %s applied to %s' % (op, self.show(v)))
             if op == '-':
-                return -v
+                it = self.int_type(e)
+                return -v if it is None else self.wrap_bits(-v, it)
             if op == '~':
                 return ~v
             if op == '+':
@@ -535,7 +611,13 @@ class Machine:
                     a, b = self.ty.wrap(a, ut), self.ty.wrap(b, ut)
                     r = self.binop(op, a, b, e)
                     return r if op in ('==', '!=', '<', '>', '<=', '>=') else self.ty.wrap(r, ut)
-            return self.binop(op, a, b, e)
+            r = self.binop(op, a, b, e)
+            if op in ('+', '-', '*') and isinstance(r, int) and isinstance(a, int) and isinstance(b, int):
+                it = self.int_type(e)
+                if it is not None:
+                    # the operation is carried out in its C type: a result that does not fit wraps (two's complement)
+                    r = self.wrap_bits(r, it)
+            return r
         if k == 'cond':
             c = self.rval(e['c'], fr)
             if e.get('gnu'):
@@ -779,7 +861,10 @@ class Machine:
                 for k2, x in a.cells.items():
                     o.cells[k2] = x
             else:
+                if isinstance(a, int) and p.get('type'):
+                    a = self.ty.wrap(a, p['type'])      # conversion of the argument to the parameter type
                 o.cells[0] = a
+        rt = _INT_TYPES.get(self.ty.clean(f.ret)) if isinstance(getattr(f, 'ret', None), str) else None
         b = f.entry
         blocks = f.blocks
         while True:
@@ -806,7 +891,12 @@ class Machine:
                 elif ev == 'decl':
                     self.do_decl(e, fr)
                 elif ev == 'ret':
-                    return self.rval(e['value'], fr) if 'value' in e else None
+                    if 'value' not in e:
+                        return None
+                    v = self.rval(e['value'], fr)
+                    if rt is not None and isinstance(v, int):
+                        v = self.ty.wrap(v, f.ret)          # conversion of the value to the return type
+                    return v
             if blk.noreturn:
                 raise Fault('fatal', 'a path that does not return was taken in %s' % f.name)
             succ = blk.succ
@@ -872,7 +962,10 @@ class Machine:
                             if isinstance(v, dict) and v.get('k') != 'init':
                                 self.write(o, i * es, self.rval(v, fr))
             else:
-                self.write(o, 0, self.rval(init, fr))
+                v = self.rval(init, fr)
+                if isinstance(v, int) and e.get('type'):
+                    v = self.ty.wrap(v, e['type'])
+                self.write(o, 0, v)
 
     def do_store(self, e, fr):
         op = e['op']
@@ -1145,3 +1238,70 @@ def is_ancestor(a, b):
         if b == a:
             return True
     return False
+
+
+# -----------------------------------------------------------------------------
+# comparison functions by role
+# -----------------------------------------------------------------------------
+
+def verdict_text(v):
+    return {1: 'positive', 0: 'zero', -1: 'negative'}.get(v, str(v))
+
+
+def compare_verdict(prog, f, a, b, m=None):
+    """sign of f(&A, &B) for two timespec objects holding a = (sec, nsec) and b; Fault when the evaluated code misbehaves"""
+    m = m or Machine(prog)
+    ty = m.ty
+    size = ty.sizeof('struct timespec')
+    o_sec, o_nsec = ty.offset('timespec', 'tv_sec'), ty.offset('timespec', 'tv_nsec')
+    ptrs = []
+    for nm, k in (('A', a), ('B', b)):
+        o = m.alloc(nm, size, zero=True)
+        o.cells[o_sec], o.cells[o_nsec] = k
+        ptrs.append(('p', o, 0))
+    m.steps = 0
+    try:
+        v = m.run(f, ptrs)
+    except (Fault, AnalysisBroken):
+        raise
+    except RecursionError:
+        raise Fault('hang', 'evaluation recursed beyond the interpreter stack')
+    except Exception as x:
+        raise AnalysisBroken('evaluator failed on %s: %s: %s' % (f.name, type(x).__name__, x))
+    if not isinstance(v, int):
+        raise Fault('memory', '%s returns %r' % (f.name, v))
+    return (v > 0) - (v < 0)
+
+
+def timespec_comparators(prog):
+    """[(function, {(order of tv_sec, order of tv_nsec): sign of the verdict})] of the functions that by role compare two
+    times: they take exactly two pointers to struct timespec, return an integer, and on small keys (three magnitudes) their
+    verdict depends only on how the two seconds and the two nanoseconds are ordered (and is not constant)."""
+    ty = Types(prog)
+    out = []
+    val = {'<': (5, 7), '=': (6, 6), '>': (7, 5)}
+    for f in prog.all_funcs():
+        ps = f.params
+        if len(ps) != 2 or not f.blocks or not isinstance(f.ret, str) or ty.clean(f.ret) not in _INT_TYPES:
+            continue
+        if not all(p.get('ptr') and p.get('record') == 'timespec' and ty.clean(ty.pointee(p.get('type', ''))) == 'struct timespec' for p in ps):
+            continue
+        m = Machine(prog)
+        table = {}
+        role = True
+        for so in '<=>':
+            for no in '<=>':
+                seen = set()
+                for (base, mul, nmul) in ((0, 1, 100), (1000, 1, 1000), (0, 3, 70000000)):
+                    a = (base + mul * val[so][0], nmul * val[no][0])
+                    b = (base + mul * val[so][1], nmul * val[no][1])
+                    try:
+                        seen.add(compare_verdict(prog, f, a, b, m))
+                    except Fault:
+                        seen.add('fault')
+                if len(seen) != 1 or 'fault' in seen:
+                    role = False
+                table[(so, no)] = next(iter(seen))
+        if role and len(set(table.values())) > 1:
+            out.append((f, table))
+    return sorted(out, key=lambda x: x[0].q)
